@@ -19,6 +19,7 @@ type ProgPkg struct {
 	Source  string   // one file (named File)
 	File    string   // file name, e.g. "types.go"
 	Imports []string // direct imports (paths)
+	Extra   map[string]string // further files of the package (name -> source); used by C05
 }
 
 type Program struct {
